@@ -166,3 +166,41 @@ fn c19_disjoint_set_vs_naive_partition() {
     }
     println!("CASES c19_disjoint_set {cases}");
 }
+
+/// the `Combine` instances the forest merges data with: `HashSet` (set union) and `Option<_>` (an absent datum contributes
+/// nothing) — identity on both sides, symmetric, associative, on random operands; and a forest whose data is `Option<HashSet>`
+#[test]
+fn c19_combine_instances_are_monoids() {
+    use std::collections::HashSet;
+    use storage_layout_extractor::data::{combine::Combine, disjoint_set::DisjointSet};
+    let mut rng = Rng::seeded(1919);
+    let mut set = |rng: &mut Rng| -> HashSet<u32> { (0..rng.below(5)).map(|_| rng.below(8) as u32).collect() };
+    let mut cases = 0;
+    for _ in 0..300 {
+        let (a, b, c) = (set(&mut rng), set(&mut rng), set(&mut rng));
+        let union: HashSet<u32> = a.union(&b).copied().collect();
+        if a.clone().combine(b.clone()) != union { witness("C19", "combine.hashset.is_union", format!("{a:?} {b:?}"), format!("{:?}", a.clone().combine(b.clone())), format!("{union:?}")); }
+        if a.clone().combine(HashSet::identity()) != a || HashSet::identity().combine(a.clone()) != a { witness("C19", "combine.identity", format!("{a:?}"), "changed by the identity".into(), "unchanged".into()); }
+        for (x, y, z) in [(Some(a.clone()), Some(b.clone()), Some(c.clone())), (Some(a.clone()), None, Some(c.clone())), (None, Some(b.clone()), None), (Some(a.clone()), Some(b.clone()), None), (None, None, Some(c.clone()))] {
+            let id: Option<HashSet<u32>> = Combine::identity();
+            if x.clone().combine(id.clone()) != x || id.clone().combine(x.clone()) != x { witness("C19", "combine.identity", format!("{x:?}"), format!("x+id={:?} id+x={:?}", x.clone().combine(id.clone()), id.combine(x.clone())), "x both ways".into()); }
+            if x.clone().combine(y.clone()) != y.clone().combine(x.clone()) { witness("C19", "combine.symmetric", format!("{x:?} {y:?}"), "differs".into(), "equal".into()); }
+            if x.clone().combine(y.clone()).combine(z.clone()) != x.clone().combine(y.clone().combine(z.clone())) { witness("C19", "combine.associative", format!("{x:?} {y:?} {z:?}"), "differs".into(), "equal".into()); }
+            cases += 1;
+        }
+    }
+    // a forest over Option data: union with a set that has no data keeps the data; adding None changes nothing
+    let mut ds: DisjointSet<usize, Option<HashSet<u32>>> = DisjointSet::new();
+    ds.add_data(&0, Some(HashSet::from([7])));
+    ds.insert(1);
+    ds.union(&0, &1);
+    ds.add_data(&1, None);
+    ds.add_data(&3, Some(HashSet::from([1, 2])));
+    ds.add_data(&3, None);
+    ds.union(&4, &3);
+    for (v, want) in [(0usize, HashSet::from([7u32])), (1, HashSet::from([7])), (3, HashSet::from([1, 2])), (4, HashSet::from([1, 2]))] {
+        let got = ds.get_data(&v).cloned().flatten();
+        if got.as_ref() != Some(&want) { witness("C19", "ds.data_combined_once", format!("Option data, element {v}"), format!("{got:?}"), format!("Some({want:?})")); }
+    }
+    println!("CASES c19_combine {cases}");
+}
